@@ -611,3 +611,19 @@ def run(ctx):
     for i in (0, len(lines) // 3, len(lines) // 2, (3 * len(lines)) // 4, len(lines) - 1):
         if 0 <= i < len(c_out):
             ctx.sample({"case": lines[i][:120], "c": c_out[i][:160], "model": (m_out[i] if i < len(m_out) else "")[:160]})
+
+
+META = {
+    "text": "Rocq theorems for ALL code points 1..2^31-1 and ALL byte strings/lengths: encode emits exactly the UTF-8 table's "
+            "bytes and length (div/mod-64 arithmetic over the six ranges, no code-point sweep), decode(encode x ++ rest) returns "
+            "the same length and x, every proper prefix is rejected, the decoder never reads at an index >= num (checked "
+            "accessor never fails, fuel never runs out), reports <= min(num,6) bytes, accepts a multi-byte sequence only when "
+            "all trailing bytes are continuation bytes, 0xFE/0xFF rejected; a_utf_length/_length_ advance by exactly the "
+            "decoder's reports and stop at NUL / undecodable byte / end. Tie: extracted model vs the C under ASan+UBSan with "
+            "every buffer flush against a PROT_NONE page.",
+    "note": "Trusted: Coq kernel; extraction (ExtrOcamlBasic only) + drivers; hand-written model coq/C18/UtfDefs.v tied by "
+            "differential testing on the generated cases (all code points < 0x20000, boundaries, lead byte x continuation "
+            "matrices, mutated/truncated strings; thorough: all 2^31-1 code points C-side against the spec); memory safety of the "
+            "C is observed (guard page, sanitizers), proved only of the model; finite byte sweeps (<256) lifted by a proved lemma. No axioms.",
+    "technique": "Rocq proof (div/mod-64 arithmetic by lia over the six length ranges, byte sweeps lifted by lemma) + extracted-model vs C correspondence with guard pages",
+}
